@@ -14,7 +14,8 @@
        (C02_contract_takes_unit), so (1) applies to every portfolio built from them;
    (3) the building blocks used above and for the classes not covered by (2): in/out split, limits = rate x step length,
        transport flows, level recursion, holding cost by Abel summation, take prorating, portfolio = direct sum + nodal rows.
-   NOT PROVED (hence still "partial"): instances for MultiCommodityContract, ExtendedTransport,
+   MultiCommodityContract = that problem delivering into several nodes with factors (C02_multi_unit).
+   NOT PROVED (hence still "partial"): instances for ExtendedTransport,
    coarse / periodic asset grids and the binary options of the storage; the discount factor itself (an irrational power: the
    builders receive it as data, the oracle compares it); and everything rests on the correspondence of the model builders with
    assets.py.  For those classes the composition is decided per instance by the check: the independent formulation
@@ -173,6 +174,15 @@ Theorem C02_contract_takes_unit :
           u_tb := tb_contract_takes g rg p a maxc minc ec mx mn |}.
 Proof. exact contract_takes_unit_ok. Qed.
 Print Assumptions C02_contract_takes_unit.
+
+(* MultiCommodityContract: the same problem, its dispatch delivered into several nodes with factors *)
+Theorem C02_multi_unit :
+  forall (u : unit_) node0 nodes factors,
+  u_ok u -> Forall (fun r => is_d r = true /\ m_node r = Some node0) (ap_map (u_prob u)) ->
+  u_ok {| u_name := u_name u; u_prob := {| ap_lp := ap_lp (u_prob u); ap_map := multi_map (ap_map (u_prob u)) nodes factors |};
+          u_dec := u_dec u; u_tb := tb_multi (u_tb u) node0 nodes factors |}.
+Proof. exact multi_unit_ok. Qed.
+Print Assumptions C02_multi_unit.
 
 (* the boolean test the check evaluates on every generated portfolio (RefCorr.unit_hyps, names distinct) is enough for the
    composition theorems to apply to the model of that portfolio *)
